@@ -73,16 +73,19 @@ let run (sc : scenario) : string =
   let nlog = ref 0 in
   let fuel = nat_of_int 100000 in
   let get_progs () =
-    LL.fold_left (fun acc (p, cap, rt, nd) ->
+    LL.fold_left (fun acc (p, cap, rt, nd, sl) ->
         let rs = LL.rev (try Hashtbl.find rows (sn p) with Not_found -> []) in
         Util.sins BinNat.N.compare p
           { Script.pg_cap = cap; Script.pg_rows = (if rs = [] then [[]] else rs); Script.pg_rectime = rt;
-            Script.pg_ndraws = nat_of_int nd } acc) [] !progs in
+            Script.pg_ndraws = nat_of_int nd; Script.pg_stateless = sl } acc) [] !progs in
   let do_op (idx : int) (o : coq_N Sim.sop) =
     match SimInst.y_op (get_progs ()) !stream fuel !sys o with
     | Util.Panic _ -> add "PANIC\n"; raise Exit
     | Util.Ok (s', ret) ->
       sys := s';
+      (* the scenario carries a finite prefix of the random stream: running past it is a generator fault *)
+      if int_of_n (n_of_int (LL.length !stream)) < (let rec cnt n = match n with Datatypes.O -> 0 | Datatypes.S m -> 1 + cnt m in cnt s'.Sim.y_q.Sim.q_rand)
+      then (add "DRAWS-EXHAUSTED\n"; raise Exit);
       (match ret with
        | Sim.RetUnit -> add "RET UNIT\n"
        | Sim.RetBool x -> add ("RET BOOL " ^ b01 x ^ "\n")
@@ -112,8 +115,8 @@ let run (sc : scenario) : string =
          | "SEED" -> ()
          | "DRAWS" -> stream := LL.map n_of_string t.rest
          | "PROG" ->
-           let p = next_n t in let cap = next_n t in let rt = next_bool t in let nd = next_int t in
-           progs := !progs @ [(p, cap, rt, nd)]
+           let p = next_n t in let cap = next_n t in let fl = next_int t in let nd = next_int t in
+           progs := !progs @ [(p, cap, fl land 1 <> 0, nd, fl land 2 <> 0)]
          | "ROW" ->
            let p = next_tok t in
            let k = next_int t in
